@@ -24,6 +24,7 @@ EXPLANATION = (
     "ids equal the vendor's. R5 set-point arithmetic: AT5 raw = 10*t - 100, AT4 integer set-point in bits 5..0; limits follow the mode (C10.R5 re-used). "
     "R6 check value: C06 (same _write). Float truncation off the 0.1 grid is not decided."
     " R7 units are created with the number their own ability / names record carries (C09.R5 re-used); R8 the quick-timer duration (no vendor text; divmod arithmetic outside the bit domain) is evaluated by the checker's interpreter on all 1440 whole-minute durations (exact hours/minutes, decodes back), on wrap-around values and on 42 sub-minute witnesses (never later than requested, same in both generations); R9 the frame is written in one piece (C01.R4 re-used)."
+    " Rounds 9-10: R14 (C11.R3 re-used): a setter suspends only to transmit (no settle time, no shared pending value); R15 (C11.R5 re-used): the stored records are replaced only from the handlers of received frames; R1 also: a clamp of an encoded value against a constant inside the field's valid range is reported (outside it, read through)."
 )
 ASSUMPTIONS = ["vendor tables transcribed in sa/spec/tables.py (DESIGN Appendix A) are the oracle", "values outside the vendor's valid ranges are outside the property's quantifier"]
 FLOORS = {"C04.R1": 40, "C04.R2": 30, "C04.R3": 30, "C04.R4": 14, "C04.R5": 6, "C04.R6": 1, "C04.R7": 1, "C04.R8": 7, "C04.R9": 1, "C04.R10": 1, "C04.R11": 1, "C04.R12": 1, "C04.R13": 1, "C04.R14": 1, "C04.R15": 1}
